@@ -260,6 +260,8 @@ def configs(tier, seed):
                         dict(kind='factory', geom='cone', vol=v, ratio=ratio)))
         if v.startswith('3d') and (tier != 'quick' or 'off-centre' in v):
             out.append(('factory/helical_geometry/%s' % v, dict(kind='factory', geom='helical', vol=v, ratio=2.0)))
+    for u in UTILITIES:
+        out.append(('utility/%s' % u, dict(kind='utility', geom=u)))
     for d in DETECTORS:
         out.append(('detector/%s' % d, dict(kind='detector', geom=d, _settings={'skip_undefined': True})))
     for g in SLICEABLE:
@@ -273,6 +275,86 @@ SLICEABLE = ['par2d/default', 'cone/spherical', 'par2d/generic', 'par2d/rotated-
              'cone/generic+helical', 'cone/helical+shifts', 'cone/generic+curved']
 SLICES = {'[1:]': slice(1, None), '[::2]': slice(None, None, 2), '[1::2]': slice(1, None, 2), '[2:3]': slice(2, 3),
           '[:3]': slice(None, 3)}
+
+
+UTILITIES = ['axis_rotation_matrix/symbolic-unit-axis', 'axis_rotation/symbolic-axis-vector-shift',
+             'euler_matrix/3-angles', 'rotation_matrix_from_to/2d', 'rotation_matrix_from_to/3d',
+             'perpendicular_vector/symbolic', 'transform_system/matrix']
+
+
+def utility_case(ctx, name):
+    """the rotation utilities themselves, with symbolic axes / vectors"""
+    U = tutil
+    I3 = np.eye(3).tolist()
+    if name.startswith('axis_rotation'):
+        k = [ctx.real('k%d' % i, -1, 1) for i in range(3)]
+        ctx.assume(dot(k, k) == 1)                         # unit axis (documented precondition)
+        a = ctx.angle('a')
+        c, s = cs(ctx, a)
+        if name.startswith('axis_rotation_matrix'):
+            R = tolist(U.axis_rotation_matrix(k, a))
+            ctx.eq('R^T.R=I', matmul(transpose(R), R), I3)
+            ctx.eq('det(R)=1', det(R), 1)
+            ctx.eq('R.axis=axis', matvec(R, k), k)
+            v = [ctx.real('v%d' % i, -2, 2) for i in range(3)]
+            # Rodrigues: R v = c v + s (k x v) + (1-c)(k.v) k
+            ref = vadd(vscale(c, v), vscale(s, cross(k, v)), vscale((1 - c) * dot(k, v), k))
+            ctx.eq('R.v=rodrigues', matvec(R, v), ref)
+            return
+        v = [ctx.real('v%d' % i, -2, 2) for i in range(3)]
+        sh = [ctx.real('s%d' % i, -2, 2) for i in range(3)]
+        got = tolist(U.axis_rotation(k, a, v, axis_shift=sh))[0]
+        shp = vadd(sh, vscale(-dot(k, sh), k))               # part of the shift perpendicular to the axis
+        w = vadd(v, vscale(-1, shp))
+        ref = vadd(shp, vscale(c, w), vscale(s, cross(k, w)), vscale((1 - c) * dot(k, w), k))
+        ctx.eq('rotation-about-the-shifted-axis', got, ref)
+        d0 = vadd(v, vscale(-1, shp))
+        d1 = vadd(got, vscale(-1, shp))
+        ctx.eq('height-along-the-axis-preserved', dot(d1, k), dot(d0, k))
+        return
+    if name.startswith('euler_matrix'):
+        ang = [ctx.angle('a%d' % i) for i in range(3)]
+        R = tolist(U.euler_matrix(*ang))
+        ctx.eq('R^T.R=I', matmul(transpose(R), R), I3)
+        ctx.eq('det(R)=1', det(R), 1)
+        R2 = tolist(U.euler_matrix(ang[0]))
+        ctx.eq('2d/R^T.R=I', matmul(transpose(R2), R2), np.eye(2).tolist())
+        ctx.eq('2d/det(R)=1', det(R2), 1)
+        ctx.eq('theta=psi=0-is-a-rotation-about-z', tolist(U.euler_matrix(ang[0], 0.0, 0.0)),
+               [[R2[0][0], R2[0][1], 0], [R2[1][0], R2[1][1], 0], [0, 0, 1]])
+        return
+    if name.startswith('rotation_matrix_from_to'):
+        pairs2 = [((1, 0), (0.6, 0.8)), ((0.6, 0.8), (-0.8, 0.6)), ((1, 0), (-1, 0)), ((3, 4), (4, -3)),
+                  ((0, 2), (0, 0.5))]
+        pairs3 = [((1, 0, 0), (0, 0, 1)), ((1, 2, 2), (2, -2, 1)), ((0, 0, 1), (0, 0, -1)), ((0, 3, 4), (0, 6, 8)),
+                  ((2, 1, -2), (-1, -2, -2))]
+        for f, t in (pairs2 if name.endswith('2d') else pairs3):
+            R = np.asarray(U.rotation_matrix_from_to(f, t), dtype=object).tolist() if ctx.sym else \
+                U.rotation_matrix_from_to(f, t).tolist()
+            n = len(f)
+            tag = '%s->%s' % (f, t)
+            ctx.eq('%s/R^T.R=I' % tag, matmul(transpose(R), R), np.eye(n).tolist(), tol=(1e-9, 8))
+            ctx.eq('%s/det(R)=1' % tag, det(R), 1, tol=(1e-9, 8))
+            ctx.eq('%s/R.from/|from|=to/|to|' % tag, matvec(R, list(unit(f))), list(unit(t)), tol=(1e-9, 8))
+        return
+    if name.startswith('perpendicular_vector'):
+        for nd, lab in ((2, '2d'), (3, '3d')):
+            v = [ctx.real('%s_v%d' % (lab, i), -2, 2) for i in range(nd)]
+            ctx.assume(dot(v, v) > 0)
+            p = tolist(U.perpendicular_vector(v))
+            ctx.eq('%s/perpendicular' % lab, dot(p, v), 0)
+            ctx.eq('%s/unit-length' % lab, dot(p, p), 1)
+        return
+    if name.startswith('transform_system'):
+        M = [[0, 0.6, 0.8], [1, 0, 0], [0, 0.8, -0.6]]
+        pv = [ctx.real('p%d' % i, -2, 2) for i in range(3)]
+        o1 = [ctx.real('o%d' % i, -2, 2) for i in range(3)]
+        res = U.transform_system(pv, None, [o1, None], matrix=M)
+        ctx.eq('principal=M.principal', res[0], matvec(M, pv))
+        ctx.eq('other=M.other', res[1], matvec(M, o1))
+        ctx.fact('None-passed-through', res[2] is None)
+        return
+    raise KeyError(name)
 
 
 DETECTORS = ['flat1d/generic-axis', 'flat2d/generic-axes', 'circular/generic-axis', 'cylindrical/generic-axes',
@@ -485,6 +567,8 @@ def case(ctx, kind, geom, sl=None, vol=None, ratio=None):
         return factory_case(ctx, geom, vol, ratio)
     if kind == 'detector':
         return detector_case(ctx, geom)
+    if kind == 'utility':
+        return utility_case(ctx, geom)
     g, info = build(ctx, geom)
     nd = info['nd']
     t = info['t']
